@@ -46,6 +46,10 @@ pub enum Op {
     /// (top-level `package` field rewritten, optionally the embedded interface's too) and is
     /// offered to every later link in addition to the regular cores
     Relabel { p: usize, pick: u64 },
+    /// a build during which one system call fails (kind 0: the nth open with EIO, 1: the nth
+    /// open with EACCES, 2: the nth read with EIO): it may fail; if it reports success it must
+    /// have written what the fault-free build writes
+    BuildUnderIoFault { p: usize, entropy: u64, kind: u8, nth: u32, use_alt_dir_first: bool },
 }
 
 const DIRS: [&str; 2] = ["store", "store0"];
@@ -93,6 +97,8 @@ struct World<'a> {
     op_index: usize,
     /// relabelled cores (paths) offered to every link in addition to the requested ones
     extra_cores: Vec<(String, u32)>,
+    /// set by `BuildUnderIoFault` for the build that follows
+    pending_io_fault: Option<(u8, u32)>,
 }
 
 fn art_path(dir: u8, name: &str, core: bool) -> String {
@@ -282,6 +288,17 @@ impl<'a> World<'a> {
         if let Some(k) = crash_at {
             spec2.crash_at = Some(k % (shadow.syscalls.max(1)));
         }
+        let io_fault = self.pending_io_fault.take();
+        if let Some((kind, nth)) = io_fault {
+            use crate::shim::{Action, Call, FaultRule};
+            let opens = shadow.log.iter().filter(|e| e.call == "open").count().max(1) as u32;
+            let reads = shadow.log.iter().filter(|e| e.call == "read").count().max(1) as u32;
+            spec2.plan = vec![match kind % 3 {
+                0 => FaultRule { call: Call::Open, nth: nth % opens, action: Action::Errno(libc::EIO) },
+                1 => FaultRule { call: Call::Open, nth: nth % opens, action: Action::Errno(libc::EACCES) },
+                _ => FaultRule { call: Call::Read, nth: nth % reads, action: Action::Errno(libc::EIO) },
+            }];
+        }
         let mut order2 = Prng::new(entropy);
         let real = ops::goml(self.sb, &spec2, mk_args(outdir, &mut order2));
         self.st.procs += 1;
@@ -298,7 +315,10 @@ impl<'a> World<'a> {
                 }
             }
         } else if crash_at.is_none() {
-            if (real.exit == Exit::Ok) != shadow_ok {
+            if io_fault.is_some() {
+                *self.st.probes.entry(if real.exit == Exit::Ok { "build_under_io_fault_succeeded" } else { "build_under_io_fault_failed" }).or_insert(0) += 1;
+            }
+            if (real.exit == Exit::Ok) != shadow_ok && io_fault.is_none() {
                 self.st.anomalies.push(format!("{cmd} {name}: shadow and real run disagree ({:?} vs {:?})", shadow.exit.class(), real.exit.class()));
             }
             // a successful operation leaves exactly its artifacts in the store: the same bytes
@@ -598,6 +618,11 @@ impl<'a> World<'a> {
             Op::Check { p, entropy } => self.check_or_build(*p, *entropy, false, None, false),
             Op::Build { p, entropy, crash_at, use_alt_dir_first } => self.check_or_build(*p, *entropy, true, *crash_at, *use_alt_dir_first),
             Op::Link { cores, entropy } => self.link(cores, *entropy),
+            Op::BuildUnderIoFault { p, entropy, kind, nth, use_alt_dir_first } => {
+                self.pending_io_fault = Some((*kind, *nth));
+                self.check_or_build(*p, *entropy, true, None, *use_alt_dir_first);
+                self.pending_io_fault = None;
+            }
             Op::Corrupt { dir, p, core, fault } => {
                 if let Some((path, b)) = self.storage_targets(*dir, *p, *core) {
                     let nb = faults::apply_byte_fault(&b, fault);
@@ -906,6 +931,8 @@ pub fn gen_history(p: &mut Prng, proj: &Project, len: usize, faults_on: &[bool; 
             Op::Revert
         } else if r < 40 {
             Op::Check { p: p.usize(n), entropy: p.next_u64() }
+        } else if r < 64 && crash && p.chance(1, 7) {
+            Op::BuildUnderIoFault { p: p.usize(n), entropy: p.next_u64(), kind: p.below(3) as u8, nth: p.below(24) as u32, use_alt_dir_first: faults_on[7] && p.chance(1, 2) }
         } else if r < 64 {
             Op::Build {
                 p: p.usize(n),
@@ -1056,6 +1083,7 @@ fn new_world<'a>(sb: &'a Sandbox, proj: &Project) -> World<'a> {
         st: Stats { procs: 0, ops: 0, fired: BTreeMap::new(), probes: BTreeMap::new(), log: Vec::new(), anomalies: Vec::new() },
         op_index: 0,
         extra_cores: Vec::new(),
+        pending_io_fault: None,
     };
     let all: Vec<usize> = (0..w.proj.pkgs.len()).collect();
     w.write_sources(&all);
